@@ -397,3 +397,80 @@ def number_range_ok(i: int, j: int, k: int, ti: int) -> bool:
     if exp is None:
         return ret(not is_in and not is_out)
     return ret(is_out == exp and is_in == (not exp))
+
+
+def datetime_range_ok(y1: int, mo1: int, d1: int, h1: int, mi1: int, y2: int, mo2: int, d2: int, h2: int, mi2: int,
+                      as_max: bool) -> bool:
+    """
+    pre: 1000 <= y1 <= 9999 and 1000 <= y2 <= 9999
+    pre: 1 <= mo1 <= 12 and 1 <= mo2 <= 12 and 1 <= d1 <= 28 and 1 <= d2 <= 28
+    pre: 0 <= h1 <= 23 and 0 <= h2 <= 23 and 0 <= mi1 <= 59 and 0 <= mi2 <= 59
+    post: _
+    """
+    # datetime-local: bound (y1..mi1) and value (y2..mi2) compare field by field in calendar order
+    def two(n):
+        return _dig(n // 10) + _dig(n % 10)
+
+    def four(n):
+        return _dig(n // 1000) + _dig(n // 100 % 10) + _dig(n // 10 % 10) + _dig(n % 10)
+
+    def txt(y, mo, d, h, mi):
+        return four(y) + '-' + two(mo) + '-' + two(d) + 'T' + two(h) + ':' + two(mi)
+    bound = (y1, mo1, d1, h1, mi1)
+    value = (y2, mo2, d2, h2, mi2)
+    soup, el = _input('datetime-local', None if as_max else txt(*bound), txt(*bound) if as_max else None, txt(*value))
+    exp = ref_out_of_range('datetime-local', None if as_max else bound, bound if as_max else None, value)
+    is_in = IN_RANGE.match(el)
+    is_out = OUT_RANGE.match(el)
+    return ret(is_out == exp and is_in == (not exp))
+
+
+R53 = part([r for r in range(400) if ref_weeks_in_year(2000 + r) == 53])    # the Gregorian calendar repeats every 400 years
+N53 = len(R53)
+
+
+def week_order_ok(ri: int, q: int, y2: int, w2: int, as_max: bool, swap: bool) -> bool:
+    """
+    pre: 0 <= ri < N53
+    pre: 3 <= q <= 24
+    pre: 1000 <= y2 <= 9999
+    pre: 1 <= w2 <= 52
+    post: _
+    """
+    # a genuine week 53 (year = 400 q + r, r one of the 71 residues with 53 ISO weeks) against a symbolic week 1..52 of a
+    # symbolic year: week values compare as (year, week), in particular W53 < W01 of the following year
+    y1 = 400 * q + R53[concrete(ri)]
+
+    def two(n):
+        return _dig(n // 10) + _dig(n % 10)
+
+    def four(n):
+        return _dig(n // 1000) + _dig(n // 100 % 10) + _dig(n // 10 % 10) + _dig(n % 10)
+    bound, value = (y1, 53), (y2, w2)
+    if swap:
+        bound, value = value, bound
+    b = four(bound[0]) + '-W' + two(bound[1])
+    v = four(value[0]) + '-W' + two(value[1])
+    soup, el = _input('week', None if as_max else b, b if as_max else None, v)
+    exp = ref_out_of_range('week', None if as_max else bound, bound if as_max else None, value)
+    return ret(OUT_RANGE.match(el) == exp and IN_RANGE.match(el) == (not exp))
+
+
+def week_parse_order_ok(ri: int, q: int, a: int, b: int, c: int, d: int, wt: int, wu: int) -> bool:
+    """
+    pre: 0 <= ri < N53
+    pre: 3 <= q <= 24
+    pre: 1 <= a <= 9 and 0 <= b <= 9 and 0 <= c <= 9 and 0 <= d <= 9
+    pre: 0 <= wt <= 5 and 0 <= wu <= 9 and 1 <= wt * 10 + wu <= 52
+    post: _
+    """
+    # the real parse_value is strictly monotone from (year, week) to whatever it returns: a genuine week 53 (concrete
+    # text) against a week whose six digits are symbolic
+    y1 = 400 * concrete(q) + R53[concrete(ri)]
+    p1 = Inputs.parse_value('week', '%04d-W53' % y1)
+    p2 = Inputs.parse_value('week', _dig(a) + _dig(b) + _dig(c) + _dig(d) + '-W' + _dig(wt) + _dig(wu))
+    y2 = a * 1000 + b * 100 + c * 10 + d
+    w2 = wt * 10 + wu
+    if p1 is None or p2 is None:
+        return ret(False)
+    return ret((p1 < p2) == ((y1, 53) < (y2, w2)) and (p2 < p1) == ((y2, w2) < (y1, 53)))
